@@ -40,6 +40,10 @@ type VarDef struct {
 
 // Validate a variable definition.
 func (v *VarDef) Validate(root *Root) (errs []error) {
+	if v.Type == nil {
+		return append(errs, fmt.Errorf("%w: the type of $%s is missing at %d:%d",
+			ErrValidation, v.Name, v.line, v.col))
+	}
 	if !IsInputType(v.Type) {
 		errs = append(errs, fmt.Errorf("%w: %s is not a valid input type for $%s at %d:%d",
 			ErrValidation, v.Type.Name(), v.Name, v.line, v.col))
